@@ -103,8 +103,8 @@ def drive(engine, runs, workdir, tag, timeout=1800):
         with open(trace, "a") as dst:
             dst.write(json.dumps({"run": last_run, "ev": "reset_after_crash"}) + "\n")
         todo = todo[idx + 1:]
-        if deaths >= 30:
-            # a badly broken build: 30 dead processes are enough evidence; the remaining runs are not executed
+        if deaths >= 12:
+            # a badly broken build: 12 dead processes are enough evidence; the remaining runs are not executed
             # (deaths are data - violations of the engine's panic-freedom / memory-safety properties - not tool errors)
             break
     os.remove(ops)
